@@ -120,13 +120,13 @@ pub fn check(c: &Case) -> Result<Info, String> {
             }
         }
     }
-    let mut q = [0u8; 32];
+    let mut q = [0xa5u8; 32]; // the caller's output buffer is not zero on entry
     crypto_scalarmult(&mut q, &n, &p);
     if q != model {
         return Err(format!("crypto_scalarmult(n={}, p={}) = {} but X25519 (RFC 7748{}) = {}", hx(&n), hx(&p), hx(&q), if sod.is_some() { " and libsodium" } else { "" }, hx(&model)));
     }
     // base point
-    let mut b = [0u8; 32];
+    let mut b = [0x5au8; 32];
     crypto_scalarmult_base(&mut b, &n);
     let sb = sodium::scalarmult_base(&n);
     let mut nine = [0u8; 32];
@@ -169,7 +169,7 @@ pub fn check(c: &Case) -> Result<Info, String> {
 /// cheap differential used for the dense neighbourhoods of the special encodings: dryoc == libsodium
 /// (libsodium's refusal == all-zero output); the bigint model is applied to every 16th case
 pub fn check_light(n: &[u8; 32], p: &[u8; 32], with_model: bool) -> Result<(), String> {
-    let mut q = [0u8; 32];
+    let mut q = [0xa5u8; 32];
     crypto_scalarmult(&mut q, n, p);
     let want = sodium::scalarmult(n, p).unwrap_or([0u8; 32]);
     if with_model && models::x25519(n, p) != want {
@@ -358,6 +358,31 @@ fn run_nightly_part(ctx: &mut Ctx) -> Result<(), Violation> {
     })
 }
 
+/// one thread, one fixed order: every (special point, special scalar) pair and then every pair again in the
+/// reverse order - results must not depend on what the same thread computed before (memoised state keyed too
+/// coarsely shows up here: neighbouring entries share the point, and the scalar table has constant-fill and
+/// single-bit values whose folds collide)
+fn sequential_sweep(seed: u64, scalars: &[[u8; 32]], specials: &[([u8; 32], String)], ev: &mut Evidence) -> Result<(), Violation> {
+        let mut extra_scalars: Vec<[u8; 32]> = scalars.iter().take(40).copied().collect();
+        for b in [0x11u8, 0x22, 0x33, 0x80, 0x01] {
+            extra_scalars.push([b; 32]);
+        }
+        let mut order: Vec<(usize, usize)> = vec![];
+        for pi in 0..specials.len() {
+            for si in 0..extra_scalars.len() {
+                order.push((pi, si));
+            }
+        }
+        let rev: Vec<(usize, usize)> = order.iter().rev().copied().collect();
+        order.extend(rev);
+        for (k, (pi, si)) in order.into_iter().enumerate() {
+            ev.eval(1);
+            ev.class("sequential same-thread sweep (history independence)");
+            check_light(&extra_scalars[si], &specials[pi].0, k % 64 == 0).map_err(|m| Violation::new("C05", "x25519-sequence", format!("[sequential sweep, step {k}] {m}"), json!({"seed": seed, "step": k, "scalar": hx(&extra_scalars[si]), "point": hx(&specials[pi].0)})))?;
+        }
+    Ok(())
+}
+
 pub fn run(ctx: &mut Ctx) -> Result<(), Violation> {
     #[cfg(feature = "nightly")]
     if std::env::var("VERIF_PART").as_deref() == Ok("nightly") {
@@ -419,6 +444,7 @@ pub fn run(ctx: &mut Ctx) -> Result<(), Violation> {
         }
         Ok(())
     })?;
+    sequential_sweep(seed, &scalars, &specials, &mut ctx.ev)?;
     // honest pairs
     let pairs: Vec<u64> = (0..ctx.tier.pick(20_000u64, 200_000)).collect();
     ctx.par_each(&pairs, |_, &i, ev| {
@@ -498,6 +524,12 @@ pub fn replay(v: &Violation) -> Result<(), String> {
             let a: [u8; 32] = hex::decode(v.case["seed_a"].as_str().unwrap_or("")).map_err(|e| e.to_string())?.try_into().map_err(|_| "len")?;
             let b: [u8; 32] = hex::decode(v.case["seed_b"].as_str().unwrap_or("")).map_err(|e| e.to_string())?.try_into().map_err(|_| "len")?;
             check_honest(&a, &b)
+        }
+        "x25519-sequence" => {
+            let seed = v.case["seed"].as_u64().unwrap_or(1);
+            let mut f = Fill::new(seed, "C05:scalars");
+            let scalars = special_scalars(&mut f, 96);
+            sequential_sweep(seed, &scalars, &special_points(), &mut Evidence::default()).map_err(|v| v.message)
         }
         "iterated" => {
             let n = v.case["iterations"].as_u64().unwrap_or(1) as usize;
